@@ -479,3 +479,36 @@ def in_worklist_loop(ctx, fn, node):
         return None
     inside = {id(x): w for l, w in loops for x in ast.walk(l)}
     return inside.get(id(node))
+
+
+def _reads_length(fn, name):
+    """Local `name` holds a recorded length: every assignment of it in fn reads the key 'length' of something."""
+    defs = [n for n in own_nodes(fn.node) if isinstance(n, ast.Assign) and any(isinstance(t, ast.Name) and t.id == name for t in n.targets)]
+    stores = [n for n in own_nodes(fn.node) if isinstance(n, ast.Name) and n.id == name and isinstance(n.ctx, ast.Store)]
+    if not defs or len(defs) != len(stores):
+        return False
+    for d in defs:
+        v = d.value
+        ok = (isinstance(v, ast.Subscript) and isinstance(v.slice, ast.Constant) and v.slice.value == "length") or \
+            (isinstance(v, ast.Call) and isinstance(v.func, ast.Attribute) and v.func.attr == "get" and v.args and isinstance(v.args[0], ast.Constant) and v.args[0].value == "length")
+        if not ok:
+            return False
+    return True
+
+
+def nonempty_atom(fn, x):
+    """Truth of atom x for an entry whose recorded length is not zero (None: x does not speak of the recorded length).
+    `length`, `length > 0`, `length != 0`, `0 < length` are true, `length == 0` is false; also written on entry['length']."""
+    def is_len(e):
+        if isinstance(e, ast.Name):
+            return _reads_length(fn, e.id)
+        return isinstance(e, ast.Subscript) and isinstance(e.slice, ast.Constant) and e.slice.value == "length"
+    if is_len(x):
+        return True
+    if isinstance(x, ast.Compare) and len(x.ops) == 1:
+        l, r, op = x.left, x.comparators[0], x.ops[0]
+        if is_len(l) and isinstance(r, ast.Constant) and r.value == 0:
+            return {ast.Eq: False, ast.NotEq: True, ast.Gt: True, ast.LtE: False}.get(type(op))
+        if is_len(r) and isinstance(l, ast.Constant) and l.value == 0:
+            return {ast.Eq: False, ast.NotEq: True, ast.Lt: True, ast.GtE: False}.get(type(op))
+    return None
